@@ -3,8 +3,8 @@
 # Confirms in a scratch worktree: patch applies+builds, existing suite passes with it, demo fails with it, demo passes without.
 # Writes <seed-src-dir>/confirm.json
 src="$1"; id="$2"
-wt=/tmp/confirm/$id; tgt=/tmp/confirm/$id-target
-mkdir -p /tmp/confirm; rm -rf "$wt" "$tgt"
+wt=/tmp/confirm/$id; tgt=${CONFIRM_TGT:-/tmp/confirm/$id-target}
+mkdir -p /tmp/confirm; rm -rf "$wt"; [ -z "$CONFIRM_TGT" ] && rm -rf "$tgt"
 git -C /repo worktree add -q "$wt" HEAD || exit 2
 cd "$wt"
 res() { python3 - "$@" <<'PY'
@@ -65,5 +65,5 @@ PY
   fi
 fi
 res "$src/confirm.json" id="$id" applies="$applies" builds="$builds" suite_with_change="$suite" demo_with_change="$demo_with" demo_without_change="$demo_without" repo_head="$(git -C /repo rev-parse --short HEAD)"
-cd /; git -C /repo worktree remove --force "$wt"; rm -rf "$tgt"
+cd /; git -C /repo worktree remove --force "$wt"; [ -z "$CONFIRM_TGT" ] && rm -rf "$tgt"
 cat "$src/confirm.json"
